@@ -1364,12 +1364,22 @@ class _TreeItems:
     def __iter__(self):
         bucket = self.firstbucket
         itertype = self.itertype
-        iterargs = self.iterargs
+        iterargs = tuple(self.iterargs)
+        min, max, excludemin, excludemax = (
+            iterargs + (_marker, _marker, False, False)[len(iterargs):])
+        # An omitted bound excludes the smallest (largest) key of the
+        # tree only, not that of every bucket.
+        nomin = min is _marker or min is None
+        nomax = max is _marker or max is None
+        first = True
         done = 0
         # Note that we don't mind if the first bucket yields no
         # results due to an idiosyncrasy in how range searches are done.
         while bucket is not None:
-            for k in getattr(bucket, itertype)(*iterargs):
+            exmin = excludemin and (first or not nomin)
+            exmax = excludemax and (bucket._next is None or not nomax)
+            first = False
+            for k in getattr(bucket, itertype)(min, max, exmin, exmax):
                 yield k
                 done = 0
             if done:
